@@ -53,6 +53,7 @@ class MemoryIndex(Index):
     def __init__(self) -> None:
         self._indexes: dict[IndexKey, dict[str, IndexValue]] = {}
         self._in_index: set[str] = set()
+        self._unparseable: set[str] = set()
 
     def available_keys(self):
         return self._indexes.keys()
@@ -60,6 +61,8 @@ class MemoryIndex(Index):
     def get_values(self, name, etag, keys):
         if etag not in self._in_index:
             raise KeyError(etag)
+        if etag in self._unparseable:
+            return None
         indexes = {}
         for k in keys:
             if k not in self._indexes:
@@ -74,6 +77,10 @@ class MemoryIndex(Index):
         return iter(self._in_index)
 
     def add_values(self, name, etag, values):
+        if values is None:
+            # File could not be parsed; it never matches.
+            self._unparseable.add(etag)
+            values = {}
         for k, v in values.items():
             if k not in self._indexes:
                 raise AssertionError
@@ -82,6 +89,7 @@ class MemoryIndex(Index):
 
     def reset(self, keys):
         self._in_index = set()
+        self._unparseable = set()
         self._indexes = {}
         for key in keys:
             self._indexes[key] = {}
